@@ -356,8 +356,8 @@ Proof.
     unfold abs. cbn [fst snd]. rewrite <- C. rewrite <- C in D.
     destruct (remaining d1) as [|b0 r0] eqn:Er; [contradiction|]. rewrite <- Er.
     destruct (n <? 0)%Z eqn:En.
-    + assert (Hc : (n <=? Z.of_nat (tail d1) - Z.of_nat (head d1))%Z = true) by lia.
-      rewrite Hc. exact I.
+    + split; [exact A|]. split; [reflexivity|].
+      apply abs_eq; [reflexivity|]. cbn [set_err err]. rewrite E. reflexivity.
     + destruct (n <=? Z.of_nat (tail d1) - Z.of_nat (head d1))%Z eqn:Ec.
       * destruct (window_split d1 (Z.to_nat n) A ltac:(lia)) as (Hs & Hw & Hwf').
         rewrite Hs.
@@ -1137,6 +1137,7 @@ Proof.
       subst s. rewrite (window_slice d1 A).
       rewrite (fast_loop_scan (S (length (window d1))) (window d1) 0 n c m ltac:(lia) ltac:(lia) Hw Hm0).
       cbn [Nat.add].
+      replace (length (window d1) <? c) with false by (symmetry; apply Nat.ltb_ge; lia).
       destruct (window_split d1 c A ltac:(lia)) as (Hs1 & _ & Hwf1). rewrite Hs1. cbn [bind].
       replace ((0 =? 0) && (m <=? 0)%Z) with true by (cbn; lia).
       split; [exact Hwf1|]. rewrite Hrem. rewrite firstn_app_le, skipn_app_le by lia.
